@@ -2,7 +2,7 @@ SPECIFICATION TraceSpec
 CONSTANTS
   Variants = {"best", "deadline"}
   Relays = {1, 2, 3}
-  ProvSet = {}
+  FetchSet <- TraceFetchSet
   Values = {0}
   CfgSet = {}
   TableSet = {"A", "B"}
